@@ -815,6 +815,12 @@ func c19Matrix(r *RNG) []procCmd {
 		procCmd{Name: "returns", Args: []string{"portfolio", "returns", "-v", "CHF", "--months"}, Stages: []int{6}, Valued: true},
 		procCmd{Name: "weights", Args: []string{"portfolio", "weights", "-v", "CHF", "--csv"}, Stages: []int{5}, Valued: true},
 		procCmd{Name: "weights", Args: []string{"portfolio", "weights", "-v", "CHF", "--csv", "--weeks", "-m", "1,."}, Stages: []int{5}, Valued: true},
+		// account / commodity filters: one predicate value is handed to several stages of the pipeline, i.e. to several
+		// goroutines (seeded change C19-e memoised the regex verdicts in a plain map inside the predicate)
+		procCmd{Name: "returns", Args: []string{"portfolio", "returns", "-v", "CHF", "--weeks", "--account", "Assets"}, Stages: []int{6}, Valued: true},
+		procCmd{Name: "returns", Args: []string{"portfolio", "returns", "-v", "CHF", "--account", "Portfolio|Bank", "--commodity", "AAA|CHF"}, Stages: []int{6}, Valued: true},
+		procCmd{Name: "weights", Args: []string{"portfolio", "weights", "-v", "CHF", "--csv", "--months", "--account", "Assets:", "--commodity", "."}, Stages: []int{5}, Valued: true},
+		procCmd{Name: "balance", Args: []string{"balance", "--color=false", "-v", "CHF", "--months", "--account", "Assets|Expenses", "--commodity", "CHF|AAA"}, Stages: []int{6}, Valued: true},
 	)
 	return cmds
 }
